@@ -101,3 +101,37 @@ func zzH_C09_reader_methods(t *zzT) {
 	}
 	t.Reach("returned")
 }
+
+// C09.a (length prefixes): a length-delimited field whose length prefix is ANY 64-bit varint (all 10
+// bytes symbolic, so also values >= 2^63 that wrap when converted to int) is rejected or read without
+// panic, without oversized allocation and without reading out of bounds.
+//
+//zz:opt loop=24
+func zzH_C09_reader_length_prefix(t *zzT) {
+	// key (field 1, wire type 2) + 10-byte length varint + 1 payload byte
+	b := append([]byte{0x0a}, t.Bytes("len", 10)...)
+	b = append(b, t.U8("payload"))
+	which := t.Choice("method", 5)
+	r := NewReader(b)
+	switch which {
+	case 0:
+		r.ReadBytes(1, t.Bool("strict"))
+	case 1:
+		r.ReadString(1, t.Bool("strict"))
+	case 2:
+		r.ReadBytesArray(1)
+	case 3:
+		r.ReadStrings(1)
+	case 4:
+		r.ReadDecodable(1, func() DecodableReader { return &zzNested{} }, t.Bool("strict"))
+	}
+	t.Reach("returned")
+}
+
+type zzNested struct{ v []byte }
+
+func (n *zzNested) DecodeFromReader(r *Reader) error {
+	v, err := r.ReadBytes(1, false)
+	n.v = v
+	return err
+}
